@@ -12,6 +12,23 @@ import z3
 CVC5 = "/usr/bin/cvc5"
 
 
+def safe_check(s, timeout_ms):
+    """solver.check() with a hard deadline: z3 occasionally ignores its own timeout (preprocessing of large quantified
+    formulas); a timer thread interrupts the context shortly after the budget.  Returns z3.sat / z3.unsat / z3.unknown."""
+    import threading
+
+    s.set("timeout", int(timeout_ms))
+    t = threading.Timer(timeout_ms / 1000.0 + 2.0, s.ctx.interrupt)
+    t.daemon = True
+    t.start()
+    try:
+        return s.check()
+    except z3.Z3Exception:
+        return z3.unknown
+    finally:
+        t.cancel()
+
+
 def to_smt2(axioms, pc, goal):
     s = z3.Solver()
     # simplify beta-reduces select-of-lambda, which keeps the text inside what cvc5 parses
@@ -107,9 +124,8 @@ def _solve(task):
     try:
         ctx = z3.Context()
         s = z3.Solver(ctx=ctx)
-        s.set("timeout", timeout_ms)
         s.from_string(smt2)
-        r = s.check()
+        r = safe_check(s, timeout_ms)
         res = str(r)
         if r == z3.sat and want_model:
             model = _model_dict(s.model())
@@ -122,10 +138,9 @@ def _solve(task):
                 if sub is None:
                     break
                 s2 = z3.Solver(ctx=ctx)
-                s2.set("timeout", max(2000, timeout_ms // 3))
                 for f in sub:
                     s2.add(f)
-                if s2.check() == z3.unsat:
+                if safe_check(s2, max(2000, timeout_ms // 3)) == z3.unsat:
                     res, backend, detail = "unsat", f"z3(relevance-{hops})", ""
                     break
     except Exception as e:
@@ -192,13 +207,12 @@ def discharge_jobs(jobs, timeout_ms=20000, workers=16, use_cvc5=True, fast_ms=15
     for i, (o, axioms, unit, ukind) in enumerate(jobs):
         t0 = time.time()
         s = z3.Solver()
-        s.set("timeout", fast_ms if o.expect == "unsat" else 800)
         for a in axioms:
             s.add(a)
         for f in o.pc:
             s.add(f)
         s.add(z3.Not(o.goal))
-        r = s.check()
+        r = safe_check(s, fast_ms if o.expect == "unsat" else 800)
         model = _model_dict(s.model()) if r == z3.sat else None
         if r == z3.unknown and o.expect == "unsat":
             slow.append(i)
